@@ -4,7 +4,10 @@ CONSTANTS
   MaxRcpts = 3
   MaxNonNone = 0
   MaxScopes = 4
-  Dmarcs = {"off", "quar"}
+  Dmarcs = {"off", "none", "quar", "rej"}
+  Vias = {"p", "psp", "sp", "suborg", "subown", "upper"}
+  EarlyOn = TRUE
+  DupOn = TRUE
   ExtraV = {"rq", "rqp"}
   Only1On = TRUE
   WithRemote = TRUE
@@ -12,7 +15,7 @@ CONSTANTS
   Kinds = {"pipe", "rpipe", "qpipe"}
   ModOn = TRUE
   Lazy = TRUE
-  Devs = {"NABody", "BodyPerScope", "ReplayRejectLeaks"}
+  Devs = {"NABody", "BodyPerScope", "ReplayRejectLeaks", "DupAfterReject"}
   Gen = FALSE
   MaxDelay = 0
 CHECK_DEADLOCK FALSE
